@@ -4,6 +4,8 @@
 // compiled with g++ -fsanitize=thread -fsanitize-coverage=trace-pc (compile only) and linked against the entry
 // points defined here instead of libtsan, with -Wl,--wrap for the libc calls header code makes.
 #include "rt.h"
+#include <string_view>
+#include <functional>
 #include "../simrt/simrt.h"
 
 #include <atomic>
@@ -305,7 +307,20 @@ void rt_run_threads(ThreadBody body, void *arg) {
         // derived from the seed: identities vary from run to run and are the same whenever the seed is.
         const size_t STK = (size_t)8 << 20;
         pthread_attr_t at; pthread_attr_init(&at);
-        void *want = (void *)((uintptr_t)0x7d0000000000ull + (uintptr_t)k * 0x4000000000ull + (uintptr_t)(simrt::mix(G.sp.seed, 0x57ac, (uint64_t)k) % 65536) * 0x10000ull);
+        uintptr_t slot = (uintptr_t)(simrt::mix(G.sp.seed, 0x57ac, (uint64_t)k) % 65536);
+        // In a quarter of the runs the identities *collide*: thread k >= 2 gets a stack whose thread id has the same hash as thread 1's in its low
+        // eight bits (std::hash<std::thread::id> is a byte hash of the pthread_t; the distance between a stack's base and the pthread_t inside it is
+        // measured on thread 1).  Code that picks "its" slot of a small table by thread identity then meets a neighbour in the same slot.
+        static uintptr_t tcb_off = 0;      // pthread_self() - stack base, learned from the first thread with a stack of ours
+        if (k >= 2 && tcb_off && G.t[1].own_stack && (simrt::mix(G.sp.seed, 0xc011, 0) & 3) == 0) {
+            auto h = [](uintptr_t v) { return std::hash<std::string_view>()(std::string_view((const char *)&v, sizeof v)); };
+            const size_t want_low = h((uintptr_t)G.t[1].own_stack + tcb_off) & 255;
+            for (uintptr_t j = 0; j < 65536; j++) {
+                uintptr_t cand = (slot + j) % 65536, base = (uintptr_t)0x7d0000000000ull + (uintptr_t)k * 0x4000000000ull + cand * 0x10000ull;
+                if ((h(base + tcb_off) & 255) == want_low) { slot = cand; break; }
+            }
+        }
+        void *want = (void *)((uintptr_t)0x7d0000000000ull + (uintptr_t)k * 0x4000000000ull + slot * 0x10000ull);
         void *got = mmap(want, STK, PROT_READ | PROT_WRITE, MAP_PRIVATE | MAP_ANONYMOUS | MAP_STACK | MAP_FIXED_NOREPLACE, -1, 0);
         if (got != MAP_FAILED && got != want) { munmap(got, STK); got = MAP_FAILED; }
         x.own_stack = got == MAP_FAILED ? nullptr : got;
@@ -313,6 +328,7 @@ void rt_run_threads(ThreadBody body, void *arg) {
         pthread_create(&x.handle, &at, trampoline, &x);
         pthread_attr_destroy(&at);
         sem_wait(&me->sem);
+        if (!tcb_off && x.own_stack) tcb_off = (uintptr_t)x.handle - (uintptr_t)x.own_stack;
     }
     me->vc[0]++;
     int first = 1;
